@@ -41,6 +41,9 @@ func (e *Env) bind(name string, v Val) *Env {
 	return &n
 }
 
+// refType is the specification-level type of opaque references (interface payloads, backing stores).
+var refType = types.NewNamed(types.NewTypeName(0, nil, "ref", nil), types.NewPointer(types.Typ[types.Int]), nil)
+
 type specErr struct{ msg string }
 
 func (s specErr) Error() string { return "contract binding error: " + s.msg }
@@ -114,7 +117,7 @@ func (env *Env) resolveType(t TypeExpr) types.Type {
 			}
 		}
 		if name == "ref" {
-			return types.Typ[types.UnsafePointer]
+			return refType
 		}
 		for _, pn := range []string{env.pkg, "ecs", "event", "filter", "listener", "generic"} {
 			if ty := env.c.P.lookupType(pn, name); ty != nil {
@@ -245,6 +248,12 @@ func (env *Env) ident(name string) Val {
 		return v
 	}
 	if v, ok := env.pkgConst("ecs", name); ok {
+		return v
+	}
+	if g := env.c.DB.Globals[name]; g != nil {
+		hn, t := env.globalHeap(g)
+		v := sc(env.c.hget(env.cur, hn), t)
+		v.Ghost = true
 		return v
 	}
 	sfail("unknown identifier %s", name)
@@ -507,18 +516,18 @@ func (env *Env) selector(x *ESel) Val {
 	case VIface:
 		switch x.Name {
 		case "tag":
-			return sc(v.F[0].T, types.Typ[types.UnsafePointer])
+			return sc(v.F[0].T, refType)
 		case "val":
-			return sc(v.F[1].T, types.Typ[types.UnsafePointer])
+			return sc(v.F[1].T, refType)
 		}
 	case VSlice:
 		if x.Name == "data" {
-			return sc(v.F[0].T, types.Typ[types.UnsafePointer])
+			return sc(v.F[0].T, refType)
 		}
 	case VUPtr:
 		switch x.Name {
 		case "reg":
-			return sc(v.F[0].T, types.Typ[types.UnsafePointer])
+			return sc(v.F[0].T, refType)
 		case "off":
 			return sc(v.F[1].T, types.Typ[types.Int])
 		}
@@ -528,7 +537,7 @@ func (env *Env) selector(x *ESel) Val {
 }
 
 // refVal wraps an Int-sorted term as an opaque reference value.
-func refVal(t string) Val { return sc(t, types.Typ[types.UnsafePointer]) }
+func refVal(t string) Val { return sc(t, refType) }
 
 func (env *Env) fieldOf(base place, name string) Val {
 	c := env.c
@@ -598,6 +607,19 @@ func (env *Env) ghostOf(t types.Type, name string) *GhostField {
 	return nil
 }
 
+// globalHeap: a ghost global map[ref]V is one heap variable keyed by reference.
+func (env *Env) globalHeap(g *GhostField) (string, types.Type) {
+	sub := &Env{c: env.c, pkg: g.Pkg, vars: map[string]Val{}}
+	t := sub.resolveType(g.T)
+	mt, ok := t.(*types.Map)
+	if !ok || keySort(mt.Key()) != "Int" {
+		sfail("ghostglobal %s must be map[ref]V", g.Name)
+	}
+	name := "GG$" + g.Name
+	env.c.heapDecl(name, scalarSort(mt.Elem()), 1, true)
+	return name, t
+}
+
 // ghost field storage: heap G$Struct$name keyed by object reference; value sort from the ghost type.
 func (env *Env) ghostHeap(g *GhostField) (string, string, types.Type) {
 	t := env.resolveType(g.T)
@@ -645,7 +667,11 @@ func (env *Env) index(x *EIndex) Val {
 		return c.loadLocQuiet(env.cur, c.elemLoc(st.Elem(), v.F[0].T, i))
 	case v.K == VScalar && v.Ghost:
 		mt := v.Typ.(*types.Map)
-		k := env.typed(env.eval(x.I), mt.Key())
+		kv := env.eval(x.I)
+		if keySort(mt.Key()) == "Int" {
+			return sc("(select "+v.T+" "+refTerm(kv)+")", mt.Elem())
+		}
+		k := env.typed(kv, mt.Key())
 		return sc("(select "+v.T+" "+c.mapKey(k)+")", mt.Elem())
 	case v.K == VScalar && v.Typ != nil && classOf(v.Typ) == CArray:
 		i := env.idx(env.eval(x.I))
@@ -756,6 +782,11 @@ func (env *Env) binary(x *EBin) Val {
 	}
 	f := func(n string) Val { return sc("("+n+" "+a.T+" "+b.T+")", a.Typ) }
 	cmp := func(s, u string) Val {
+		if !signed {
+			if f := foldLit("(" + u + " " + a.T + " " + b.T + ")"); f == "true" || f == "false" {
+				return sc(f, boolT)
+			}
+		}
 		if signed {
 			return sc("("+s+" "+a.T+" "+b.T+")", boolT)
 		}
@@ -853,6 +884,9 @@ func (env *Env) callExpr(x *ECall) Val {
 	case "ite":
 		cnd := env.evalB(x.Args[0])
 		a, b := env.eval(x.Args[1]), env.eval(x.Args[2])
+		if a.C != nil && b.C != nil { // untyped constants default to int, as in Go
+			a, b = env.typed(a, types.Typ[types.Int]), env.typed(b, types.Typ[types.Int])
+		}
 		if a.C != nil {
 			a = env.typed(a, b.Typ)
 		}
@@ -899,6 +933,24 @@ func (env *Env) callExpr(x *ECall) Val {
 			return c.loadStruct(env.cur, t, v.F[1].T)
 		}
 		return sc(v.F[1].T, t)
+	case "mk":
+		t := env.resolveType(x.Args[0].(*EType).T)
+		s, ok := under(t).(*types.Struct)
+		if !ok || s.NumFields() != len(x.Args)-1 {
+			sfail("mk(%s, ...) needs %d field values", t, s.NumFields())
+		}
+		v := Val{K: VStruct, Typ: t}
+		for i := 0; i < s.NumFields(); i++ {
+			f := env.typed(env.eval(x.Args[i+1]), s.Field(i).Type())
+			if f.K == VScalar && f.Typ == types.Typ[types.UntypedNil] {
+				f = c.zeroVal(s.Field(i).Type())
+			}
+			if f.K == VScalar && f.Typ != nil {
+				f.Typ = s.Field(i).Type()
+			}
+			v.F = append(v.F, f)
+		}
+		return v
 	case "popcount":
 		v := env.eval(x.Args[0])
 		return sc(popcount64(v.T), types.Typ[types.Int])
@@ -1157,6 +1209,15 @@ func (c *Ctx) modTargets(env *Env, m Expr) []modTarget {
 		}
 		sfail("modifies: no field %s", x.Name)
 	case *EIndex:
+		if id, ok := x.X.(*EIdent); ok {
+			if g := c.DB.Globals[id.Name]; g != nil {
+				hn, _ := env.globalHeap(g)
+				if ai, ok := x.I.(*EIdent); ok && ai.Name == "ALL" {
+					return []modTarget{{heap: hn, all: true}}
+				}
+				return []modTarget{{heap: hn, key: refTerm(env.eval(x.I))}}
+			}
+		}
 		v := env.eval(x.X)
 		allIdx := false
 		if id, ok := x.I.(*EIdent); ok && id.Name == "ALL" {
